@@ -1,3 +1,347 @@
-(* Properties/C10.v — placeholder while the proofs are being developed *)
-From CKT Require Import Common.Base Common.Circ Model.Separate Model.Partition.
-Theorem c10_stub : True. Proof. exact I. Qed.
+(* Properties/C10.v — Separating and partitioning a circuit preserves its structure and meaning.
+   Only theorem statements (closed by `exact`), non-vacuity examples, facts obligations, Print Assumptions.
+
+   Vocabulary (Proofs/SeparateP.v, Proofs/PartitionP.v):
+     split_spec u c          one-pass specification of _split_barriers (uuid = ordinal, starting at u)
+     keys_of ls              the non-None labels of ls in first-appearance order
+     omembers ls l n         the qubits < n carrying label l, ascending
+     qm_entry ls q           Some (l, rank of q among the qubits of l) / None
+     valid_labelling ls c    every ordinary instruction lies inside one non-None label; no barrier touches a None qubit
+     restrict_instr ls l i   [i] if i belongs to label l; a multi-qubit barrier restricted to l's qubits (dropped if empty)
+     remap_all qs cl         re-indexing of qubits through qs (and clbits through cl); unmap_instr is its inverse
+     wire_view q c           the instructions touching wire q, in order (a barrier seen as a barrier on q)
+     hproj / cproj           per-wire / per-clbit projections of a tagged circuit (identities dropped)
+     conn es                 equivalence closure of the edge list es *)
+From Coq Require Import Sorted Permutation Relations String.
+From CKT Require Import Common.Base Common.Circ Common.Herbrand Model.Observables Proofs.ObservablesP
+  Model.Separate Model.Partition Proofs.SeparateP Proofs.PartitionP.
+
+(* ------------------------------------------------------------------------------------------------ *)
+(* the two list-surgery loops equal their position-free specifications *)
+Theorem c10_split_barriers : forall c, has_empty_barrier c = false -> split_barriers c = split_spec 0 c.
+Proof. exact split_barriers_spec. Qed.
+
+Theorem c10_combine_barriers : forall c, combine_barriers c = cspec c [] c.
+Proof. exact combine_barriers_spec. Qed.
+
+(* ------------------------------------------------------------------------------------------------ *)
+(* c10_separate: one subcircuit per non-None label (first-appearance order); its qubits are that label's qubits in
+   original order; qubit_map consistent; each subcircuit is the original restricted to its label, order kept,
+   multi-partition barriers split and re-joined per partition, re-indexed.  labels = None: automatic labelling. *)
+Theorem c10_separate : forall n cregs c labels subs qm,
+  no_uuid c ->
+  separate_circuit n cregs c labels = Ok (subs, qm) ->
+  let ls := sep_labels n c labels in
+  length ls = n /\
+  valid_labelling ls c /\
+  map (fun s : subcirc => fst (fst s)) subs = keys_of ls /\
+  length qm = n /\ (forall q, q < n -> nth q qm None = qm_entry ls q) /\
+  forall l nq body, In (l, nq, body) subs ->
+    In l (keys_of ls) /\
+    nq = length (omembers ls l n) /\
+    remap_all (omembers ls l n) (clbits_of cregs) (flat_map (restrict_instr ls l) c) = Some body.
+Proof. exact separate_spec. Qed.
+
+(* every ordinary instruction lands in exactly one subcircuit *)
+Theorem c10_exactly_one : forall ls i l,
+  needs_split i = false -> one_label ls i l ->
+  restrict_instr ls l i = [i] /\ forall l', l' <> l -> restrict_instr ls l' i = [].
+Proof. exact restrict_unique. Qed.
+
+(* the qubits of a label are exactly its qubits, ascending *)
+Theorem c10_members : forall ls l n j,
+  (In j (omembers ls l n) <-> j < n /\ nth j ls None = Some l) /\ StronglySorted lt (omembers ls l n).
+Proof. intros; split; [apply omembers_in|apply omembers_sorted]. Qed.
+
+(* ------------------------------------------------------------------------------------------------ *)
+(* generic: two tagged circuits with the same per-wire and per-clbit projections have the same Herbrand
+   denotation from every state (instructions on disjoint wires commute) *)
+Theorem c10_commute : forall R1 R2 s,
+  visible R1 -> visible R2 ->
+  (forall q, hproj q R1 = hproj q R2) -> (forall k, cproj k R1 = cproj k R2) ->
+  hrun s R1 = hrun s R2.
+Proof. exact hrun_proj_eq. Qed.
+
+(* c10_recompose: mapping every subcircuit back through the qubit map gives, per original wire, the original
+   instruction sequence; hence ANY interleaving R of the parts has the denotation of the original circuit *)
+Theorem c10_recompose : forall n cregs c labels subs qm,
+  no_uuid c ->
+  separate_circuit n cregs c labels = Ok (subs, qm) ->
+  let ls := sep_labels n c labels in
+  (forall l nq body, In (l, nq, body) subs ->
+     map (unmap_instr (omembers ls l n) (clbits_of cregs)) body = flat_map (restrict_instr ls l) c) /\
+  (forall q l, nth q ls None = Some l -> wire_view q (flat_map (restrict_instr ls l) c) = wire_view q c) /\
+  (forall q, nth q ls None = None -> wire_view q c = []) /\
+  (forall l, map snd (restrict_tagged ls l (tagc c)) = flat_map (restrict_instr ls l) c) /\
+  forall nc (R : tcirc), visible R ->
+    (forall q, hproj q R = match nth q ls None with
+                           | Some l => hproj q (restrict_tagged ls l (tagc c))
+                           | None => []
+                           end) ->
+    (forall k, cproj k R = cproj k (tagc c)) ->
+    hrun (hinit n nc) R = denote n nc c.
+Proof. exact separate_recompose. Qed.
+
+(* ------------------------------------------------------------------------------------------------ *)
+(* c10_auto_idle: under automatic labelling exactly the idle qubits get None (and are dropped by separate_circuit);
+   two qubits share a label iff connected; labels are consecutive from 0, ordered by the least qubit *)
+Theorem c10_union_find : forall n es,
+  (forall e, In e es -> fst e < n /\ snd e < n) ->
+  forall a b, find (uptree n es) a = find (uptree n es) b <-> conn es a b.
+Proof. intros n es H. exact (find_conn n es _ (uptree_spec n es H)). Qed.
+
+Theorem c10_auto_idle : forall n ignore c,
+  in_range n c ->
+  let L := auto_labels n ignore false c in
+  length L = n /\
+  (forall q, q < n -> (nth q L None = None <-> touched c q = false)) /\
+  (forall a b k, a < n -> b < n -> nth a L None = Some k ->
+     (nth b L None = Some k <-> conn (edges ignore c) a b)) /\
+  (forall q k, q < n -> nth q L None = Some k -> forall j, j <= k -> exists q', q' < n /\ nth q' L None = Some j) /\
+  (forall q1 q2 k1 k2, q1 < n -> q2 < n -> nth q1 L None = Some k1 -> nth q2 L None = Some k2 -> k1 < k2 ->
+     exists r1, r1 < n /\ nth r1 L None = Some k1 /\ r1 <= q1 /\
+                forall x, x < n -> nth x L None = Some k2 -> r1 < x).
+Proof.
+  intros n ignore c R. cbv zeta. split; [apply auto_labels_length|]. split; [exact (auto_idle n ignore c R)|].
+  split; [exact (auto_conn n ignore c R false)|]. split; [exact (auto_consecutive n ignore c false)|].
+  exact (auto_order n ignore c R false).
+Qed.
+
+Theorem c10_keep_idle_wires : forall n ignore c q, in_range n c -> q < n -> nth q (auto_labels n ignore true c) None <> None.
+Proof. intros n ignore c q R. exact (auto_keep_idle n ignore c R q). Qed.
+
+Theorem c10_separate_drops_idle : forall n cregs c subs qm,
+  no_uuid c -> in_range n c ->
+  separate_circuit n cregs c None = Ok (subs, qm) ->
+  forall q, q < n -> (nth q qm None = None <-> touched c q = false).
+Proof. exact separate_auto_idle. Qed.
+
+(* ------------------------------------------------------------------------------------------------ *)
+(* partition_problem.  [dx] is the oracle QuantumCircuit.decompose(TwoQubitQPDGate) with contract [dx_contract]:
+   a permutation of the in-place expansion with the same per-wire sequences. *)
+Theorem c10_dx_contract_inhabited : dx_contract expand_qpd2.
+Proof. exact dx_contract_id. Qed.
+
+(* c10_cuts: the k-th placeholder (list order) of the cut circuit yields two halves, qubit_id 0 / 1, in the partitions
+   of its two qubits, at the re-indexed positions, carrying suffix k, the same basis handle and basis_id;
+   bases is ordered by k *)
+Theorem c10_cuts : forall basis_of relabel dx, dx_contract dx ->
+  forall n ncl ncr c labels obs subs bases so,
+  no_uuid c ->
+  partition_problem basis_of relabel dx n ncl ncr c labels obs = Ok (subs, bases, so) ->
+  let ls := labels_used n c labels in
+  exists qc,
+    partition_circuit_qubits basis_of n c ls = Ok qc /\
+    Forall2 (pcq_rel basis_of ls) c qc /\
+    bases = map qbasis (qpd2s qc) /\
+    forall k x b bid lbl a q,
+      nth_error (qpd2s qc) k = Some x -> iop x = Qpd2 b bid lbl -> iqs x = [a; q] ->
+      let lbl' := Some (relabel lbl, Some k) in
+      nth k bases 0 = b /\
+      exists la lq na nq suba subq a' q',
+        nth a ls None = Some la /\ nth q ls None = Some lq /\
+        In (la, na, suba) subs /\ In (lq, nq, subq) subs /\
+        index_of a (omembers ls la n) = Some a' /\ index_of q (omembers ls lq n) = Some q' /\
+        In (mkI (Qpd1 b 0 bid lbl') [a'] []) suba /\ In (mkI (Qpd1 b 1 bid lbl') [q'] []) subq.
+Proof. exact cuts_spec. Qed.
+
+(* the subcircuits of partition_problem recompose, wire by wire, to the cut circuit *)
+Theorem c10_problem_recompose : forall basis_of relabel dx, dx_contract dx ->
+  forall n ncl ncr c labels obs subs bases so,
+  no_uuid c ->
+  partition_problem basis_of relabel dx n ncl ncr c labels obs = Ok (subs, bases, so) ->
+  let ls := labels_used n c labels in
+  exists qc, partition_circuit_qubits basis_of n c ls = Ok qc /\
+    let cut := expand_qpd2 (fst (number_qpd relabel qc 0)) in
+    length ls = n /\
+    map (fun s : subcirc => fst (fst s)) subs = keys_of ls /\
+    (forall l nq body, In (l, nq, body) subs ->
+       nq = length (omembers ls l n) /\
+       forall q, nth q ls None = Some l ->
+         wire_view q (map (unmap_instr (omembers ls l n) []) body) = wire_view q cut) /\
+    (forall q, nth q ls None = None -> wire_view q cut = []).
+Proof. exact problem_recompose. Qed.
+
+(* c10_subobs_keys: sub-observables exist for exactly the returned subcircuits (same keys, same order).
+   UNCONDITIONAL in the repaired model: a non-None label whose qubits are all idle still has an (empty) subcircuit,
+   and the None group is removed (F4).  In the unrepaired code the key None is present: refuted by the check. *)
+Theorem c10_subobs_keys : forall basis_of relabel dx, dx_contract dx ->
+  forall n ncl ncr c labels obs subs bases so,
+  no_uuid c ->
+  partition_problem basis_of relabel dx n ncl ncr c labels obs = Ok (subs, bases, so) ->
+  match so with
+  | Some so' => map fst so' = map (fun s : subcirc => fst (fst s)) subs
+  | None => obs = None \/ obs = Some []
+  end.
+Proof. exact problem_subobs_keys. Qed.
+
+(* c10_subobs_tensor: each sub-observable is the restriction to its label's qubits (in the subcircuit's qubit
+   order); scattering all of them back gives the original Pauli string *)
+Theorem c10_subobs_tensor : forall ls ps so,
+  sub_observables ls ps = Ok so ->
+  map fst so = keys_of ls /\
+  (forall l subs_l, In (l, subs_l) so -> subs_l = map (restrict1 (omembers ls l (length ls))) ps) /\
+  forall j, j < length ps -> length (plets (nth j ps pI)) = length ls ->
+    recombine1 (length ls)
+      (map (fun e : nat * list pauli => (omembers ls (fst e) (length ls), nth j (snd e) pI)) so)
+    = plets (nth j ps pI).
+Proof.
+  intros ls ps so H. split; [exact (subobs_keys ls ps so H)|]. split.
+  - intros l subs_l. exact (subobs_entries ls ps so l subs_l H).
+  - intros j. exact (subobs_tensor ls ps so j H).
+Qed.
+
+(* ------------------------------------------------------------------------------------------------ *)
+(* c10_refusals *)
+Theorem c10_separate_refuses : forall n cregs c ls,
+  no_empty_instr c ->
+  length ls <> n \/ (exists i, In i c /\ bad_instr ls i) ->
+  separate_circuit n cregs c (Some ls) = Refused.
+Proof. exact separate_refuses. Qed.
+
+Theorem c10_problem_refuses : forall basis_of relabel dx n ncl ncr c,
+  (forall ls obs, length ls <> n -> partition_problem basis_of relabel dx n ncl ncr c (Some ls) obs = Refused) /\
+  (forall labels ps p, labels_ok n labels -> In p ps -> length (plets p) <> n ->
+     partition_problem basis_of relabel dx n ncl ncr c labels (Some ps) = Refused) /\
+  (forall labels ps p, labels_ok n labels -> obs_sizes_ok n (Some ps) -> In p ps -> pphase p <> 0 ->
+     partition_problem basis_of relabel dx n ncl ncr c labels (Some ps) = Refused) /\
+  (forall labels obs, labels_ok n labels -> obs_sizes_ok n obs -> obs_phases_ok obs -> (ncl <> 0 \/ ncr <> 0) ->
+     partition_problem basis_of relabel dx n ncl ncr c labels obs = Refused) /\
+  (forall labels obs i, labels_ok n labels -> obs_sizes_ok n obs -> obs_phases_ok obs ->
+     In i c -> uncuttable basis_of (labels_used n c labels) i ->
+     partition_problem basis_of relabel dx n 0 0 c labels obs = Refused).
+Proof.
+  intros. split; [intros; now apply refuses_label_count|]. split; [intros; eapply refuses_obs_size; eauto|].
+  split; [intros; eapply refuses_phase; eauto|]. split; [intros; now apply refuses_clbits|].
+  intros; eapply refuses_uncuttable; eauto.
+Qed.
+
+(* repaired behaviour F4: an observable acting on a None-labelled (idle, dropped) qubit is refused, never answered *)
+Theorem c10_idle_observable : forall ls ps,
+  (forall p q, In p ps -> q < length ls -> nth q ls None = None -> nth q (plets p) 0 <> 0 ->
+     sub_observables ls ps = Refused) /\
+  ((forall p q, In p ps -> q < length ls -> nth q ls None = None -> nth q (plets p) 0 = 0) ->
+   (forall p, In p ps -> length (plets p) = length ls) -> exists so, sub_observables ls ps = Ok so).
+Proof. intros ls ps. split; [intros p q; apply subobs_refused|apply subobs_ok]. Qed.
+
+Theorem c10_idle_observable_problem : forall basis_of relabel dx n ncl ncr c labels ps p q r,
+  In p ps -> q < n -> nth q (labels_used n c labels) None = None -> nth q (plets p) 0 <> 0 ->
+  partition_problem basis_of relabel dx n ncl ncr c labels (Some ps) <> Ok r.
+Proof. exact idle_observable_never_ok. Qed.
+
+(* ------------------------------------------------------------------------------------------------ *)
+(* non-vacuity *)
+Definition G g qs := mkI (Gate g) qs [].
+Definition B qs := mkI (Barrier None) qs [].
+
+(* a barrier spanning two partitions (qubits in scrambled order), a one-qubit barrier, labels A B B *)
+Definition ex1 : circ := [G 0 [0]; B [2; 0; 1]; G 1 [1; 2]; B [0]; G 2 [2]].
+Example c10_ex_barrier :
+  separate_circuit 3 [] ex1 (Some [Some 0; Some 1; Some 1]) =
+  Ok ([(0, 1, [G 0 [0]; B [0]; B [0]]); (1, 2, [B [1; 0]; G 1 [0; 1]; G 2 [1]])],
+      [Some (0, 0); Some (1, 0); Some (1, 1)]).
+Proof. reflexivity. Qed.
+
+Example c10_ex_barrier_hyps : no_uuid ex1 /\ in_range 3 ex1 /\ no_empty_instr ex1.
+Proof.
+  repeat split.
+  - intros i Hi. repeat (destruct Hi as [<-|Hi]; [reflexivity|]). destruct Hi.
+  - intros i q Hi Hq. repeat (destruct Hi as [<-|Hi]; [simpl in Hq; lia|]). destruct Hi.
+  - intros i Hi. repeat (destruct Hi as [<-|Hi]; [discriminate|]). destruct Hi.
+Qed.
+
+(* an interleaving of the two (tagged) parts: partition B first, then partition A — hypotheses of c10_recompose *)
+Definition ex1_labels : list label := [Some 0; Some 1; Some 1].
+Definition ex1_R : tcirc := restrict_tagged ex1_labels 1 (tagc ex1) ++ restrict_tagged ex1_labels 0 (tagc ex1).
+Example c10_ex_recompose_hyps :
+  visible ex1_R /\
+  (forall q, hproj q ex1_R = match nth q ex1_labels None with
+                             | Some l => hproj q (restrict_tagged ex1_labels l (tagc ex1))
+                             | None => []
+                             end) /\
+  (forall k, cproj k ex1_R = cproj k (tagc ex1)) /\
+  map snd ex1_R <> ex1.
+Proof.
+  split; [|split; [|split]].
+  - intros ti Hti. vm_compute in Hti. repeat (destruct Hti as [<-|Hti]; [vm_compute; (now left) || (right; discriminate)|]).
+    destruct Hti.
+  - intros [|[|[|[|q]]]]; reflexivity.
+  - intros k. reflexivity.
+  - discriminate.
+Qed.
+Example c10_ex_recompose : hrun (hinit 3 0) ex1_R = denote 3 0 ex1.
+Proof. reflexivity. Qed.
+
+(* an idle qubit under automatic labelling: dropped *)
+Definition ex2 : circ := [G 0 [0]; G 1 [0; 1]].
+Example c10_ex_idle :
+  separate_circuit 3 [] ex2 None = Ok ([(0, 2, [G 0 [0]; G 1 [0; 1]])], [Some (0, 0); Some (0, 1); None]).
+Proof. reflexivity. Qed.
+
+(* a pre-placed cut gate, a gate that is cut (twice), a barrier across the cut; simple oracles *)
+Definition bo (o : op) : option (nat * qlabel) := match o with Gate 1 => Some (0, Some (5, None)) | _ => None end.
+Definition rl (l : qlabel) : nat := match l with Some (b, _) => b | None => 9 end.
+Definition ex3 : circ := [G 0 [0]; mkI (Qpd2 3 None (Some (7, None))) [0; 1] []; G 1 [1; 2]; B [0; 1; 2]; G 1 [2; 0]].
+Example c10_ex_cuts :
+  partition_problem bo rl expand_qpd2 3 0 0 ex3 (Some [Some 4; Some 4; Some 6]) (Some [mkP 0 [3; 1; 2]]) =
+  Ok ([(4, 2, [G 0 [0];
+               mkI (Qpd1 3 0 None (Some (7, Some 0))) [0] []; mkI (Qpd1 3 1 None (Some (7, Some 0))) [1] [];
+               mkI (Qpd1 0 0 None (Some (5, Some 1))) [1] []; B [0; 1];
+               mkI (Qpd1 0 1 None (Some (5, Some 2))) [0] []]);
+       (6, 1, [mkI (Qpd1 0 1 None (Some (5, Some 1))) [0] []; B [0];
+               mkI (Qpd1 0 0 None (Some (5, Some 2))) [0] []])],
+      [3; 0; 0],
+      Some [(4, [mkP 0 [3; 1]]); (6, [mkP 0 [2]])]).
+Proof. reflexivity. Qed.
+
+(* F4 witness class on the repaired model: IZZ is answered without a None key, ZZZ is refused *)
+Example c10_ex_idle_obs_ok :
+  partition_problem bo rl expand_qpd2 3 0 0 ex2 None (Some [mkP 0 [3; 3; 0]]) =
+  Ok ([(0, 2, [G 0 [0]; G 1 [0; 1]])], [], Some [(0, [mkP 0 [3; 3]])]).
+Proof. reflexivity. Qed.
+Example c10_ex_idle_obs_refused :
+  partition_problem bo rl expand_qpd2 3 0 0 ex2 None (Some [mkP 0 [3; 3; 3]]) = Refused.
+Proof. reflexivity. Qed.
+
+(* ------------------------------------------------------------------------------------------------ *)
+(* tie to the source (regenerated facts): stage order, refusal sites, the repaired idle-group handling *)
+From CKT Require Import Extracted.Facts.
+Open Scope string_scope.
+Definition sites_of (f : string) : nat :=
+  match List.find (fun p => String.eqb (fst p) f) value_error_sites with Some p => snd p | None => 0 end.
+Theorem c10_facts :
+  c10_separate_calls = ["_split_barriers"; "_partition_labels_from_circuit"; "_qubit_map_from_partition_labels";
+                        "_separate_instructions_by_partition"; "_circuit_from_instructions"; "_combine_barriers"] /\
+  c10_problem_calls = ["_partition_labels_from_circuit"; "partition_circuit_qubits"; "decompose"; "separate_circuit";
+                       "decompose_observables"] /\
+  c10_auto_ignores_qpd2 = true /\ c10_keep_idle_default = false /\ c10_label_suffix = "{}_{}" /\
+  sites_of "utils.transforms:separate_circuit" = 1 /\
+  sites_of "utils.transforms:_separate_instructions_by_partition" = 2 /\
+  sites_of "cutting_decomposition:partition_circuit_qubits" = 2 /\
+  sites_of "cutting_decomposition:cut_gates" = 1 /\
+  (* repaired behaviour F4: four validations + the idle-observable refusal; the None group is popped *)
+  sites_of "cutting_decomposition:partition_problem" = 5 /\
+  c10_idle_group_removed = true.
+Proof. repeat split; reflexivity. Qed.
+
+Print Assumptions c10_split_barriers.
+Print Assumptions c10_combine_barriers.
+Print Assumptions c10_separate.
+Print Assumptions c10_exactly_one.
+Print Assumptions c10_members.
+Print Assumptions c10_commute.
+Print Assumptions c10_recompose.
+Print Assumptions c10_union_find.
+Print Assumptions c10_auto_idle.
+Print Assumptions c10_keep_idle_wires.
+Print Assumptions c10_separate_drops_idle.
+Print Assumptions c10_dx_contract_inhabited.
+Print Assumptions c10_cuts.
+Print Assumptions c10_problem_recompose.
+Print Assumptions c10_subobs_keys.
+Print Assumptions c10_subobs_tensor.
+Print Assumptions c10_separate_refuses.
+Print Assumptions c10_problem_refuses.
+Print Assumptions c10_idle_observable.
+Print Assumptions c10_idle_observable_problem.
+Print Assumptions c10_facts.
